@@ -1,8 +1,8 @@
 INIT Init
 NEXT Next
 CONSTANTS
-  Acqs <- A4
-  W <- W4
+  Acqs <- A3
+  W <- W3
   InitSizes = {2, 3}
   Sizes = {1, 2, 3}
   MaxSet = 1
